@@ -4,26 +4,27 @@ from __future__ import annotations
 import ast
 import base64
 
-from sa.astx import call_attr, call_name, dotted, src
-from sa.domains import fmt_set, replace_chain
+from sa.astx import call_name
+from sa.domains import fmt_set
 from sa.selftest import Mutant, Silent
 from sa.source import AnalysisError
-from sa.props._lib_i import sect, COMPAT, BlockRaised, NotPure, Raised, eval_block, flat_bytes, interp, module_env, peval
+from sa.props._lib_i import sect, COMPAT, BlockRaised, Raised, interp, module_env
 
 PROPERTY = "C41"
 SMTP = "mail/smtp.py"
 IMAP = "mail/imap4.py"
-TECHNIQUE = "exhaustive per-unit evaluation of codec loop bodies against RFC tables"
+TECHNIQUE = "exhaustive per-unit evaluation of the codec functions against RFC tables"
 EXPLANATION = (
-    "xtext: the loop body of smtp.xtext_encode is evaluated for all 256 byte values and must equal the RFC 3461 rewrite (raw for "
+    "xtext: smtp.xtext_encode is evaluated (interpreted from its AST, whatever idiom it is written in) for all 256 byte values and must equal the RFC 3461 rewrite (raw for "
     "0x21-0x7E except '+' and '=', else '+' and two upper-case hex digits; a bytes-vs-str comparison evaluates to False exactly as "
-    "in Python 3: F41a, fixed); one iteration of xtext_decode's loop on each encoded unit must yield that byte's code point and "
-    "advance past exactly the unit. Modified UTF-7: imap4.encoder's loop body is evaluated for every ASCII code point and "
-    "representative non-ASCII ones: printable ASCII except '&' is emitted as itself, '&' as '&-', pending base64 input is flushed "
-    "(and cleared) before every direct character and at the end, shift-in/out are '&'/'-'; the set routed to modified_base64, "
-    "whose s.encode('utf-7')[1:-1] assumes a '+...-' wrapper, must be disjoint from the characters the stdlib utf-7 encoder emits "
-    "directly (RFC 2152 sets D, O and white space; table frozen here) - TAB, LF, CR are not: known finding F41b; '/'<->',' "
-    "substitutions are inverse; the decoder's per-unit transition table is checked for all (state, input) classes. Not decided: "
+    "in Python 3: F41a, fixed); xtext_decode on each encoded unit followed by several continuations must yield that byte's code point and "
+    "frame the rest after exactly the unit. Modified UTF-7: imap4.encoder is evaluated on every ASCII code point, "
+    "representative non-ASCII ones and short mixed texts: printable ASCII except '&' is emitted as itself, '&' as '&-', pending base64 input is flushed "
+    "(and cleared) before every direct character and at the end, shift-in/out are '&'/'-'; modified_base64 is "
+    "evaluated on every routed character and on runs whose payload starts / ends with '+' or ',' against RFC 3501 modified base64 "
+    "(stdlib utf-7 / base64 delegated to CPython): it removes a '+...-' wrapper that characters the stdlib encoder emits directly "
+    "(RFC 2152 sets D, O, white space; table frozen here) never get - TAB, LF, CR are routed to it: known finding F41b; "
+    "modified_unbase64 inverts the payload; the decoder is evaluated on inputs covering every (shift state, unit class) pair. Not decided: "
     "value-level round trip of the base64 payload (delegated to the stdlib codec), str-vs-bytes type of xtext_decode's result."
 )
 ASSUMPTIONS = [
@@ -46,63 +47,35 @@ def _xtext_ref(v: int) -> bytes:
     return bytes([v]) if v in XCHAR else b"+%02X" % v
 
 
-def _top_loop(f, kind):
-    loops = [st for st in f.body if isinstance(st, kind)]
-    if len(loops) != 1:
-        raise AnalysisError(f"C41: expected exactly one top-level {kind.__name__} loop in {f.name}, found {len(loops)}")
-    return loops[0]
-
-
-def _list_sink(names):
-    def sink(node):
-        if isinstance(node, ast.AugAssign):
-            return (node.target.id, "extend") if isinstance(node.target, ast.Name) and node.target.id in names and isinstance(node.op, ast.Add) else None
-        if isinstance(node, ast.Call) and isinstance(node.func, ast.Attribute) and isinstance(node.func.value, ast.Name) and node.func.value.id in names:
-            if node.func.attr in ("append", "extend") and len(node.args) == 1:
-                return (node.func.value.id, node.func.attr)
-        return None
-    return sink
-
-
-def _accumulators(f):
-    """Local names bound to an empty list / bytearray at the top level of the function."""
-    out = set()
-    for st in f.body:
-        if isinstance(st, ast.Assign) and len(st.targets) == 1 and isinstance(st.targets[0], ast.Name):
-            v = st.value
-            if (isinstance(v, ast.List) and not v.elts) or (isinstance(v, ast.Call) and dotted(v.func) in ("bytearray", "list") and not v.args):
-                out.add(st.targets[0].id)
-    return out
-
-
 # ---- xtext ---------------------------------------------------------------------------------------------------
+
+def _call(fn, *args):
+    """(value, None) or (None, text describing the exception the evaluated repository function raises)."""
+    try:
+        return fn(*args), None
+    except Raised as e:
+        return None, str(e)
+    except BlockRaised as e:
+        return None, repr(e.exc)
+
+
+def _as_text(v):
+    return v.decode("latin-1") if isinstance(v, (bytes, bytearray)) else v
+
 
 def _check_xtext(ctx):
     env0 = module_env(ctx.mod(SMTP))
     f = ctx.func(SMTP, "xtext_encode")
     q = "twisted.mail.smtp.xtext_encode"
-    s = f.args.args[0].arg
-    loop = _top_loop(f, ast.For)
-    accs = _accumulators(f)
-    ctx.need(accs, f"accumulator list in {q}")
-    sink = _list_sink(accs)
+    enc = interp(f, COMPAT, env0)
     outs = {}
     for v in range(256):
-        try:
-            units = list(peval(loop.iter, {**env0, s: bytes([v])}))
-        except (NotPure, Raised) as ex:
-            raise AnalysisError(f"{q}: loop iterable not evaluable ({ex})")
-        if len(units) != 1:
-            raise AnalysisError(f"{q}: loop does not iterate unit by unit")
-        env = dict(env0)
-        env[s] = bytes([v])
-        if not isinstance(loop.target, ast.Name):
-            raise AnalysisError(f"{q}: loop target shape")
-        env[loop.target.id] = units[0]
-        r = eval_block(loop.body, env, sink=sink)
-        if len(r.named) > 1:
-            raise AnalysisError(f"{q}: more than one accumulator written")
-        outs[v] = flat_bytes(next(iter(r.named.values()), []))
+        got, err = _call(enc, bytes([v]))
+        if err is not None:
+            raise AnalysisError(f"{q}: evaluation raises for byte 0x{v:02x}: {err}")
+        if not (isinstance(got, tuple) and len(got) == 2 and isinstance(got[0], (bytes, bytearray))):
+            raise AnalysisError(f"{q}: result shape {got!r}")
+        outs[v] = bytes(got[0])
     escaped = {v for v in range(256) if outs[v] != bytes([v])}
     want_escaped = set(range(256)) - XCHAR
     missing, extra = want_escaped - escaped, escaped - want_escaped
@@ -114,129 +87,83 @@ def _check_xtext(ctx):
     bad = [v for v in sorted(escaped & want_escaped) if outs[v] != _xtext_ref(v)]
     ctx.check(not bad, "xtext/escape-form", q + " | '+' HEXDIG HEXDIG",
               bad and f"byte 0x{bad[0]:02x} is escaped as {outs[bad[0]]!r}; RFC 3461 hexchar is '+' followed by exactly two upper-case hex digits ({_xtext_ref(bad[0])!r})")
-    # the value returned is the concatenation of the per-unit outputs, plus the consumed length
-    rets = [st for st in f.body if isinstance(st, ast.Return)]
-    ctx.need(len(rets) == 1, f"single return in {q}")
-    acc = sorted(accs)[0]
-    try:
-        rv = peval(rets[0].value, {**env0, **{a: [b"a", b"+2B"] for a in accs}, s: b"a+"})
-    except (NotPure, Raised) as ex:
-        raise AnalysisError(f"{q}: return value not evaluable ({ex})")
-    ctx.check(rv == (b"a+2B", 2), "xtext/result", ctx.construct(q, rets[0]),
-              f"the encoder returns {rv!r} for per-unit outputs [b'a', b'+2B'] of a 2-byte input; the codec contract is (joined bytes, input length)")
+    bad = None
+    for text in (b"", b"a+", b"+=\x00\xff~!", b"ab cd"):
+        got, err = _call(enc, text)
+        want = (b"".join(_xtext_ref(b) for b in text), len(text))
+        if err is not None or (bytes(got[0]), got[1]) != want:
+            bad = (text, got if err is None else err, want)
+            break
+    ctx.check(bad is None, "xtext/result", q + " | (joined units, input length)",
+              bad and f"xtext_encode({bad[0]!r}) gives {bad[1]!r}; the codec contract is {bad[2]!r}")
 
-    # ---- decoder: one loop iteration per encoded unit
+    # ---- decoder on every encoded unit, with continuations
     f = ctx.func(SMTP, "xtext_decode")
     q = "twisted.mail.smtp.xtext_decode"
-    s = f.args.args[0].arg
-    loop = _top_loop(f, ast.While)
-    accs = _accumulators(f)
-    sink = _list_sink(accs)
-    idx = [st.targets[0].id for st in f.body if isinstance(st, ast.Assign) and len(st.targets) == 1 and isinstance(st.targets[0], ast.Name)
-           and isinstance(st.value, ast.Constant) and st.value.value == 0]
-    ctx.need(len(idx) == 1, f"index variable initialised to 0 in {q}")
-    i = idx[0]
-    bad_val = bad_adv = None
+    dec = interp(f, COMPAT, env0)
+    bad_val = bad_len = None
     for v in range(256):
-        enc = _xtext_ref(v)
-        for tail in (b"", b"41", b"+"):
-            env = {**env0, s: enc + tail, i: 0}
-            try:
-                if not peval(loop.test, env):
-                    raise AnalysisError(f"{q}: loop does not start on non-empty input")
-            except (NotPure, Raised) as ex:
-                raise AnalysisError(f"{q}: loop test not evaluable ({ex})")
-            r = eval_block(loop.body, env, sink=sink)
-            got = next(iter(r.named.values()), [])
-            val = None
-            if len(got) == 1:
-                g0 = got[0]
-                val = ord(g0) if isinstance(g0, str) and len(g0) == 1 else (g0[0] if isinstance(g0, bytes) and len(g0) == 1 else (g0 if isinstance(g0, int) else None))
-            if val != v and bad_val is None:
-                bad_val = (v, enc + tail, got)
-            if env[i] != len(enc) and bad_adv is None:
-                bad_adv = (v, enc + tail, env[i])
+        unit = _xtext_ref(v)
+        for tail, tail_text in ((b"", ""), (b"41", "41"), (b"+41z", "Az"), (b"a+2B", "a+")):
+            got, err = _call(dec, unit + tail)
+            if err is not None:
+                bad_val = bad_val or (v, unit + tail, err)
+                continue
+            text = _as_text(got[0]) if isinstance(got, tuple) and len(got) == 2 else None
+            if text != chr(v) + tail_text and bad_val is None:
+                bad_val = (v, unit + tail, got)
+            if isinstance(got, tuple) and len(got) == 2 and got[1] != len(unit + tail) and bad_len is None:
+                bad_len = (v, unit + tail, got)
     ctx.check(bad_val is None, "xtext/decode-inverts", q + " | value",
-              bad_val and f"decoding {bad_val[1]!r} yields {bad_val[2]!r} for the first unit instead of byte 0x{bad_val[0]:02x}",
-              detail="256 encoded units x 3 continuations")
-    ctx.check(bad_adv is None, "xtext/decode-inverts", q + " | advance",
-              bad_adv and f"after the unit encoding byte 0x{bad_adv[0]:02x} in {bad_adv[1]!r} the index is {bad_adv[2]} instead of {len(_xtext_ref(bad_adv[0]))}: "
-              "the following input is mis-framed")
-    try:
-        stop = [bool(peval(loop.test, {**env0, s: b"ab", i: k})) for k in (0, 1, 2)]
-    except (NotPure, Raised) as ex:
-        raise AnalysisError(f"{q}: loop test not evaluable ({ex})")
-    ctx.check(stop == [True, True, False], "xtext/decode-inverts", q + " | loop bound", "the decoder loop does not visit exactly the positions 0..len(s)-1")
+              bad_val and f"decoding {bad_val[1]!r} gives {bad_val[2]!r}; the first unit encodes byte 0x{bad_val[0]:02x} and the rest must be framed after exactly that unit",
+              detail="256 encoded units x 4 continuations")
+    ctx.check(bad_len is None, "xtext/decode-inverts", q + " | consumed length",
+              bad_len and f"decoding {bad_len[1]!r} reports {bad_len[2][1]} consumed units instead of {len(bad_len[1])}")
 
 
 # ---- modified UTF-7 ---------------------------------------------------------------------------------------------
 
+def _marker(x):
+    return b"<" + x.encode("utf-16-be").hex().encode("ascii") + b">"      # opaque, injective model of the base64 helper
+
+
 def _check_utf7_encoder(ctx):
     mod = ctx.mod(IMAP)
-    env0 = {}
     f = ctx.func(IMAP, "encoder")
     q = "twisted.mail.imap4.encoder"
-    s = f.args.args[0].arg
-    loop = _top_loop(f, ast.For)
-    ctx.need(isinstance(loop.iter, ast.Name) and loop.iter.id == s and isinstance(loop.target, ast.Name), f"`for c in {s}` in {q}")
-    c = loop.target.id
-    accs = _accumulators(f)
-    ctx.need(len(accs) == 2, f"output and pending accumulators in {q}")
-    # locals evaluated before the loop (valid_chars ...)
-    pre = {}
-    for st in f.body:
-        if st is loop:
-            break
-        if isinstance(st, ast.Assign) and len(st.targets) == 1 and isinstance(st.targets[0], ast.Name) and st.targets[0].id not in accs:
-            try:
-                pre[st.targets[0].id] = peval(st.value, pre)
-            except (NotPure, Raised) as ex:
-                raise AnalysisError(f"{q}: local {st.targets[0].id} not evaluable ({ex})")
-    marker = lambda x: b"<" + x.encode("utf-16-be") + b">"  # noqa: E731  (opaque model of the base64 helper)
     helper_names = {call_name(x) for x in ast.walk(f) if isinstance(x, ast.Call) and isinstance(x.func, ast.Name) and mod.find(x.func.id) is not None}
     ctx.need(len(helper_names) == 1, f"exactly one base64 helper called from {q}")
     helper = helper_names.pop()
-    funcs = {helper: marker}
-    sink = _list_sink(accs)
+    enc = interp(f, {**COMPAT, helper: _marker}, module_env(mod))
 
-    def step(cp, pending):
-        env = {**pre, c: chr(cp)}
-        for a in accs:
-            env[a] = list(pending) if a == pending_name else []
-        r = eval_block(loop.body, env, sink=sink, funcs={**funcs}, ignore={f"{pending_name}[:]"})
-        return r
-
-    # which accumulator is "pending"?  the one passed (joined) to the helper
-    pending_name = None
-    for x in ast.walk(f):
-        if isinstance(x, ast.Call) and call_name(x) == helper:
-            ns = {n.id for n in ast.walk(x) if isinstance(n, ast.Name) and n.id in accs}
-            if len(ns) == 1:
-                pending_name = ns.pop()
-    ctx.need(pending_name, f"pending-input accumulator in {q}")
-    out_name = (accs - {pending_name}).pop()
+    def run(text):
+        got, err = _call(enc, text)
+        if err is not None:
+            raise AnalysisError(f"{q}: evaluation raises for {text!r}: {err}")
+        if not (isinstance(got, tuple) and len(got) == 2 and isinstance(got[0], (bytes, bytearray))):
+            raise AnalysisError(f"{q}: result shape {got!r}")
+        return bytes(got[0])
 
     direct, amp, routed, other = set(), set(), set(), {}
     cps = list(range(0x80)) + SAMPLE_NON_ASCII
     for cp in cps:
-        r = step(cp, [])
-        o = flat_bytes(r.named.get(out_name, []))
-        p = r.named.get(pending_name, [])
-        if p == [chr(cp)] and o == b"":
+        o = run(chr(cp))
+        if o == b"&" + _marker(chr(cp)) + b"-":
             routed.add(cp)
-        elif not p and cp < 0x80 and o == bytes([cp]):
+        elif cp < 0x80 and o == bytes([cp]):
             direct.add(cp)
-        elif not p and o == b"&-":
+        elif o == b"&-":
             amp.add(cp)
         else:
-            other[cp] = (o, p)
+            other[cp] = o
     ctx.check(not other, "utf7/unit-classes", q + " | per-character output",
-              other and f"code point U+{min(other):04X} produces output {other[min(other)][0]!r} / pending {other[min(other)][1]!r}: neither itself, '&-' nor base64 input")
+              other and f"code point U+{min(other):04X} alone is encoded as {other[min(other)]!r}: neither itself, '&-' nor '&' base64 '-'")
     want_direct = PRINTABLE - {ord("&")}
     ctx.check(direct == want_direct, "utf7/direct-set", q + " | characters that represent themselves",
               f"characters emitted as themselves differ from RFC 3501 5.1.3 (printable US-ASCII except '&') on {fmt_set(direct ^ want_direct)}"
               + ("; a literal '&' is read back as a shift into base64" if ord("&") in direct else ""), detail=f"{len(cps)} code points evaluated")
     ctx.check(amp == {ord("&")}, "utf7/ampersand", q + " | '&' -> '&-'", f"the set of characters encoded as '&-' is {fmt_set(amp)}, must be exactly '&'")
+
     # the base64 helper, evaluated (the stdlib utf-7 / base64 codecs are delegated to CPython, the repository code is interpreted):
     # for every run of routed characters it must produce RFC 3501 modified base64 of the run's UTF-16BE form.  F41b: characters the
     # stdlib utf-7 encoder emits directly come back without the '+' / '-' wrapper the helper removes.
@@ -247,14 +174,13 @@ def _check_utf7_encoder(ctx):
     def ref_mb64(t):
         return base64.b64encode(t.encode("utf-16-be")).rstrip(b"=").replace(b"/", b",")
     runs = [chr(cp) for cp in sorted(routed)]
-    runs += ["\uf800", "\ufb01", "\ufbff", "\ufb01le", "\ufffd", "\u00e9\u00e9\u00be", "\u00e9\u00e9\u00ff", "\U0001f600", "\x00\x01", "\u00e9\x01", "\u20ac\u00e9",
-             "\u00e9\n", "\t\u00e9", "\r\n", "\ufb01\ufb01\u00be"]
+    runs += ["", "ﬁ", "ﯿ", "ﬁle", "�", "éé¾", "ééÿ", "\U0001f600", "\x00\x01", "é\x01", "€é",
+             "é\n", "\té", "\r\n", "ﬁﬁ¾"]
     bad_direct = bad_payload = None
     for t in runs:
-        try:
-            got = helper_fn(t)
-        except (Raised, BlockRaised) as ex:
-            got = f"<raises {ex}>"
+        got, err = _call(helper_fn, t)
+        if err is not None:
+            got = f"<raises {err}>"
         if got == ref_mb64(t):
             continue
         if any(ord(ch) in UTF7_DIRECT for ch in t):
@@ -268,116 +194,64 @@ def _check_utf7_encoder(ctx):
     ctx.check(bad_payload is None, "utf7/helper-payload", f"{hq} | modified base64 of a routed run",
               bad_payload and f"{helper}({bad_payload[0]!r}) gives {bad_payload[1]!r}; RFC 3501 modified base64 of the run is {ref_mb64(bad_payload[0])!r} "
               "('+' and ',' are base64 digits: they may start or end the payload and must survive the removal of the utf-7 wrapper)", detail=f"{len(runs)} runs")
-    # flush discipline: with pending input, a direct character / '&' first emits '&' + helper(pending) + '-' and clears pending
-    pend = ["\u00e9", "\u20ac"]
-    for cp, tail in ((ord("a"), b"a"), (ord("&"), b"&-")):
-        r = step(cp, pend)
-        o = flat_bytes(r.named.get(out_name, []))
-        want = b"&" + marker("".join(pend)) + b"-" + tail
-        ctx.check(o == want, "utf7/flush-before-direct", f"{q} | pending then {chr(cp)!r}",
-                  f"with pending non-ASCII input, {chr(cp)!r} produces {o!r}; required shift sequence is {want!r} ('&' base64 '-' then the character)")
-    # pending cleared after each flush inside the loop
-    g = ctx.cfg(f)
-    flushes = [n for n in g.find(lambda x: isinstance(x, ast.Call) and call_name(x) == helper) if any(g.node(n).ast is st or _contains(st, g.node(n).ast) for st in [loop])]
-    clears = g.ids(lambda n: n.kind == "stmt" and ((isinstance(n.ast, ast.Delete) and any(src(t).startswith(pending_name + "[") for t in n.ast.targets))
-                                                    or (isinstance(n.ast, ast.Assign) and any(src(t) == pending_name for t in n.ast.targets))
-                                                    or (isinstance(n.ast, ast.Expr) and isinstance(n.ast.value, ast.Call) and call_name(n.ast.value) == pending_name + ".clear")))
-    head = g.ids_of(loop)
-    for fl in flushes:
-        wit = g.path([fl], head, avoid=set(clears), edge_ok=lambda a, b, l: l != "exc", strict=True)
-        ctx.check(wit is None, "utf7/pending-cleared-after-flush", ctx.construct(q, g.node(fl).ast),
-                  "the pending base64 input is emitted but not cleared: it is emitted again with the next shift sequence", witness=g.describe(wit))
-    ctx.floor("utf7/pending-cleared-after-flush", len(flushes), 1)
-    # end of input: pending flushed before return
-    after = [st for st in f.body[f.body.index(loop) + 1:]]
-    env = {**pre, out_name: [], pending_name: list(pend), s: "xy"}
-    r = eval_block(after, env, sink=sink, funcs=funcs)
-    o = flat_bytes(r.named.get(out_name, []))
-    ctx.check(o == b"&" + marker("".join(pend)) + b"-", "utf7/flush-at-end", q + " | end of input",
-              f"input ending in non-ASCII characters ends with {o!r} instead of the closed shift sequence '&' base64 '-'")
-    env = {**pre, out_name: [], pending_name: [], s: "xy"}
-    r = eval_block(after, env, sink=sink, funcs=funcs)
-    ctx.check(flat_bytes(r.named.get(out_name, [])) == b"", "utf7/flush-at-end", q + " | nothing pending", "an empty shift sequence is appended at the end of input")
 
+    # shift discipline on whole inputs (E = U+00E9, U = U+20AC are routed, 'a' is direct)
+    E, U = "é", "€"
 
-def _contains(outer, inner):
-    return any(x is inner for x in ast.walk(outer))
+    def sh(t):
+        return b"&" + _marker(t) + b"-"
+    for rule, case, text, want in (
+            ("utf7/flush-before-direct", "pending then direct character", E + U + "a", sh(E + U) + b"a"),
+            ("utf7/flush-before-direct", "pending then '&'", E + U + "&", sh(E + U) + b"&-"),
+            ("utf7/pending-cleared-after-flush", "direct character between two runs", E + "a" + U, sh(E) + b"a" + sh(U)),
+            ("utf7/pending-cleared-after-flush", "'&' between two runs", E + "&" + U, sh(E) + b"&-" + sh(U)),
+            ("utf7/flush-at-end", "input ending in a routed run", "a" + E + U, b"a" + sh(E + U)),
+            ("utf7/flush-at-end", "nothing pending at the end", "ab", b"ab"),
+            ("utf7/flush-at-end", "empty input", "", b""),
+            ("utf7/unit-classes", "consecutive routed characters share one shift sequence", E + U + E, sh(E + U + E))):
+        got = run(text)
+        ctx.check(got == want, rule, f"{q} | {case}", f"{text!r} is encoded as {got!r}; required {want!r} (shift in with '&', base64 of the whole run, shift out with '-')")
+    got, err = _call(enc, E + "ab")
+    ctx.check(err is None and got[1] == 3, "utf7/unit-classes", q + " | consumed length", f"encoder reports {got[1] if err is None else err} consumed characters for a 3-character input")
 
 
 def _check_b64_helpers(ctx):
-    enc = ctx.func(IMAP, "modified_base64")
     dec = ctx.func(IMAP, "modified_unbase64")
-    pe, pd = replace_chain(enc), replace_chain(dec)
-    q = "twisted.mail.imap4.modified_base64 ~ modified_unbase64"
-    ctx.check(pe == [(b"/", b",")], "utf7/base64-alphabet", "twisted.mail.imap4.modified_base64 | '/' -> ','",
-              f"substitutions {pe!r}: RFC 3501 modified base64 replaces exactly '/' by ','")
-    ctx.check(pd == [(n, o) for o, n in pe] and bool(pd), "utf7/base64-alphabet", q,
-              f"decoder substitutions {pd!r} are not the inverse of the encoder's {pe!r}")
-    # the decoder re-wraps with '+' ... '-'
-    rets = [st for st in dec.body if isinstance(st, ast.Return)]
-    body_env = {}
-    p = dec.args.args[0].arg
-    wrapped = None
-    for st in dec.body:
-        if isinstance(st, ast.Assign) and len(st.targets) == 1 and isinstance(st.targets[0], ast.Name):
-            try:
-                body_env[st.targets[0].id] = peval(st.value, {**body_env, p: b"AOk,"})
-            except (NotPure, Raised):
-                pass
-    wrapped = [v for v in body_env.values() if isinstance(v, bytes)]
-    ok = b"+AOk/-" in wrapped
-    if not ok:
-        for x in ast.walk(dec):
-            if isinstance(x, ast.BinOp):
-                try:
-                    if peval(x, {p: b"AOk,"}) == b"+AOk/-":
-                        ok = True
-                except (NotPure, Raised):
-                    pass
-    ctx.check(ok, "utf7/base64-alphabet", "twisted.mail.imap4.modified_unbase64 | '+' payload '-'",
-              "the payload is not handed to the utf-7 decoder as '+' <standard base64> '-'")
+    q = "twisted.mail.imap4.modified_unbase64"
+    unb = interp(dec, COMPAT, {})
+    bad = None
+    runs = ["é", "€é", "ééÿ", "éé¾", "ﬁ", "�", "\U0001f600", "\x00\x01", "\x7f", "ﬁle"]
+    for t in runs:
+        payload = base64.b64encode(t.encode("utf-16-be")).rstrip(b"=").replace(b"/", b",")
+        got, err = _call(unb, payload)
+        if err is not None or got != t:
+            bad = (t, payload, got if err is None else err)
+            break
+    ctx.check(bad is None, "utf7/base64-alphabet", q + " | inverse of modified base64",
+              bad and f"modified_unbase64({bad[1]!r}) gives {bad[2]!r}; the payload is the modified base64 (',' for '/', no padding) of {bad[0]!r}", detail=f"{len(runs)} runs")
 
 
 def _check_utf7_decoder(ctx):
+    mod = ctx.mod(IMAP)
     f = ctx.func(IMAP, "decoder")
     q = "twisted.mail.imap4.decoder"
-    loop = _top_loop(f, ast.For)
-    ctx.need(isinstance(loop.target, ast.Name), "loop variable")
-    c = loop.target.id
-    accs = _accumulators(f)
-    ctx.need(len(accs) == 2, f"output and shift accumulators in {q}")
-    helper = "modified_unbase64"
-    funcs = {helper: lambda b: "<" + b.decode("ascii") + ">"}
-    sink = _list_sink(accs)
-    # the shift accumulator is the one re-bound inside the loop
-    shift = {t.id for st in ast.walk(loop) if isinstance(st, ast.Assign) for t in st.targets if isinstance(t, ast.Name) and t.id in accs}
-    ctx.need(len(shift) == 1, f"shift-state accumulator in {q}")
-    shift = shift.pop()
-    out = (accs - {shift}).pop()
-    table = []
-    for state in ([], [b"&"], [b"&", b"A"], [b"&", b"A", b"O", b"k"]):
-        for unit in (b"&", b"-", b"a", b",", b"+"):
-            orig = list(state)
-            env = {c: unit, shift: orig, out: []}
-            r = eval_block(loop.body, env, sink=sink, funcs=funcs)
-            emitted = r.named.get(out, [])
-            pushed = r.named.get(shift, [])
-            new_state = (orig + pushed) if env[shift] is orig else list(env[shift])
-            if not state:
-                want = ([], [b"&"]) if unit == b"&" else ([unit.decode("ascii")], [])
-            elif unit == b"-":
-                want = (["&"], []) if len(state) == 1 else (["<" + b"".join(state[1:]).decode("ascii") + ">"], [])
-            else:
-                want = ([], state + [unit])
-            ok = (emitted, new_state) == want
-            table.append(ok)
-            ctx.check(ok, "utf7/decoder-transitions", f"{q} | state {'shifted' if state else 'direct'}{'+payload' if len(state) > 1 else ''}, input {unit!r}",
-                      f"in state {state!r} the unit {unit!r} emits {emitted!r} and leaves state {new_state!r}; RFC 3501 requires emit {want[0]!r}, state {want[1]!r}")
-    # an unterminated shift at end of input is still decoded (lenient), a terminated one leaves nothing pending: structural only
-    after = f.body[f.body.index(loop) + 1:]
-    env = {shift: [], out: [], f.args.args[0].arg: b"ab"}
-    r = eval_block([st for st in after if not isinstance(st, ast.Return)], env, sink=sink, funcs=funcs)
-    ctx.check(not r.named.get(out), "utf7/decoder-transitions", q + " | end of input, nothing pending", "text is appended at end of input although no shift sequence is open")
+    funcs = dict(COMPAT)
+    funcs["modified_unbase64"] = lambda b: "<" + bytes(b).decode("ascii") + ">"
+    funcs["memoryview"] = lambda b: bytes(b)
+    funcs["memory_cast"] = lambda mv, fmt: [bytes(mv)[i:i + 1] for i in range(len(bytes(mv)))]       # memoryview(b).cast('c'): one-byte bytes objects
+    dec = interp(f, funcs, module_env(mod))
+    cases = [
+        ("direct text", b"ab-c", "ab-c"), ("'&-' is a literal ampersand", b"a&-b", "a&b"), ("shift sequence", b"&AOk-", "<AOk>"),
+        ("shift sequence of one sextet group", b"&A-", "<A>"), ("shift sequence between direct text", b"x&AOk-y", "x<AOk>y"),
+        ("'&' inside a shift sequence is payload", b"&AO&k-", "<AO&k>"), ("',' and '+' inside a shift sequence are payload", b"&A,+-", "<A,+>"),
+        ("'-' outside a shift sequence is itself", b"-a-", "-a-"), ("two shift sequences", b"&AOk-&-&IKw-", "<AOk>&<IKw>"), ("empty input", b"", ""),
+        ("unterminated shift sequence is still decoded", b"a&AOk", "a<AOk>"),
+    ]
+    for case, data, want in cases:
+        got, err = _call(dec, data)
+        ok = err is None and isinstance(got, tuple) and len(got) == 2 and got[0] == want and got[1] == len(data)
+        ctx.check(ok, "utf7/decoder-transitions", f"{q} | {case}",
+                  f"decoder({data!r}) gives {(got if err is None else err)!r}; RFC 3501 modified UTF-7 requires ({want!r}, {len(data)}) (<...> stands for the base64 payload handed to modified_unbase64)")
 
 
 def check(ctx):
@@ -420,6 +294,9 @@ MUTANTS = [
 ]
 SILENT = [
     Silent("xtext-set-membership", SMTP, _XT, '        if o in (0x2B, 0x3D) or not 33 <= o <= 126:\n'),
+    Silent("xtext-as-comprehension", SMTP, "    r = []\n    for ch in iterbytes(s):\n        o = ord(ch)\n" + _XT +
+           '            r.append(networkString(f"+{o:02X}"))\n        else:\n            r.append(bytes((o,)))\n    return (b"".join(r), len(s))\n',
+           '    raw = set(range(33, 127)) - {43, 61}\n    return (b"".join(bytes((o,)) if o in raw else b"+%02X" % (o,) for o in s), len(s))\n'),
     Silent("xtext-percent-format", SMTP, 'networkString(f"+{o:02X}")', 'b"+%02X" % (o,)'),
     Silent("utf7-valid-chars-comprehension", IMAP, '    valid_chars = set(map(chr, range(0x20, 0x7F))) - {"&"}\n', '    valid_chars = {chr(x) for x in range(32, 127) if x != 0x26}\n'),
     Silent("F41b-repaired-base64-helper", IMAP, '    s_utf7 = s.encode("utf-7")\n    return s_utf7[1:-1].replace(b"/", b",")\n',
